@@ -9,9 +9,12 @@ OPT ?= -O1
 LIBS := -lglog -ltbb -lpthread
 
 E1 := h_tree h_proto_s1 h_proto_s2 h_proto_s3
+E2 := s_map
+E3 := e_scan e_nvset
 BINS := $(addprefix $(B)/,$(E1))
+SBINS := $(addprefix $(B)/,$(E2) $(E3))
 
-all: $(BINS)
+all: $(BINS) $(SBINS)
 
 $(B)/sched.o: engine/sched.cpp engine/sched.h | $(B)
 	$(CXX) -std=c++17 -O2 -g -Wall -Wextra -c $< -o $@
@@ -24,6 +27,15 @@ $(B)/%.o: harness/%.cpp | $(B)
 
 $(B)/h_proto_s1.o $(B)/h_proto_s2.o $(B)/h_proto_s3.o: $(B)/h_proto_s%.o: harness/h_proto.cpp | $(B)
 	$(CXX) $(subst SESSIONS=$(SESS),SESSIONS=$*,$(COMMON)) $(OPT) -MMD -MP -c $< -o $@
+
+$(B)/s_%.o: seq/s_%.cpp | $(B)
+	$(CXX) $(COMMON) -O2 -MMD -MP -c $< -o $@
+
+$(B)/e_%.o: enum/e_%.cpp | $(B)
+	$(CXX) $(COMMON) -O2 -MMD -MP -c $< -o $@
+
+$(SBINS): $(B)/%: $(B)/%.o $(B)/sched.o $(B)/alloc.o
+	$(CXX) -o $@ $^ $(LIBS)
 
 $(BINS): $(B)/h_%: $(B)/h_%.o $(B)/sched.o $(B)/alloc.o
 	$(CXX) -o $@ $^ $(LIBS)
